@@ -266,6 +266,33 @@ def _check_rigid(case):
                     acc.fdcmp("RigidBody.a_P_q vs d/dq a_P", body.a_P_q(t, q, u, ud, B_r_CP=off), J, est, dd)
                     J, est = _jac(lambda x: body.a_P(t, q, x, ud, B_r_CP=off), u, 1e-3)
                     acc.fdcmp("RigidBody.a_P_u vs d/du a_P", body.a_P_u(t, q, u, ud, B_r_CP=off), J, est, dd)
+    # ---- body-fixed offsets of any length: with the centre at rest in the origin every point quantity is LINEAR in B_r_CP
+    # (micro-/nano-scale offsets must not be treated as zero; seeded C04-i)
+    g = OFF[-1][1]
+    q_o = np.concatenate([np.zeros(3), P]).astype(float)
+    u_o = np.concatenate([np.zeros(3), U[0][1][3:]])
+    ud_o = np.concatenate([np.zeros(3), UD[0][1][3:]])
+    for t in ts[:1]:
+        ref = {
+            "r_OP": body.r_OP(t, q_o, B_r_CP=g), "v_P": body.v_P(t, q_o, u_o, B_r_CP=g), "a_P": body.a_P(t, q_o, u_o, ud_o, B_r_CP=g),
+            "J_P[:,3:]": fd.dense(body.J_P(t, q_o, B_r_CP=g))[:, 3:], "kappa_P": body.kappa_P(t, q_o, u_o, B_r_CP=g),
+            "r_OP_q": fd.dense(body.r_OP_q(t, q_o, B_r_CP=g))[:, 3:], "v_P_q": fd.dense(body.v_P_q(t, q_o, u_o, B_r_CP=g)),
+            "J_P_q": fd.dense(body.J_P_q(t, q_o, B_r_CP=g)), "a_P_q": fd.dense(body.a_P_q(t, q_o, u_o, ud_o, B_r_CP=g)),
+            "a_P_u": fd.dense(body.a_P_u(t, q_o, u_o, ud_o, B_r_CP=g)),
+        }
+        for sc_ in (1e-3, 1e-6, 1e-9, 1e-12):
+            b = sc_ * g
+            got = {
+                "r_OP": body.r_OP(t, q_o, B_r_CP=b), "v_P": body.v_P(t, q_o, u_o, B_r_CP=b), "a_P": body.a_P(t, q_o, u_o, ud_o, B_r_CP=b),
+                "J_P[:,3:]": fd.dense(body.J_P(t, q_o, B_r_CP=b))[:, 3:], "kappa_P": body.kappa_P(t, q_o, u_o, B_r_CP=b),
+                "r_OP_q": fd.dense(body.r_OP_q(t, q_o, B_r_CP=b))[:, 3:], "v_P_q": fd.dense(body.v_P_q(t, q_o, u_o, B_r_CP=b)),
+                "J_P_q": fd.dense(body.J_P_q(t, q_o, B_r_CP=b)), "a_P_q": fd.dense(body.a_P_q(t, q_o, u_o, ud_o, B_r_CP=b)),
+                "a_P_u": fd.dense(body.a_P_u(t, q_o, u_o, ud_o, B_r_CP=b)),
+            }
+            for k in ref:
+                rk = np.asarray(ref[k], float)
+                acc.close(f"RigidBody.{k}(s B_r_CP) / s vs {k}(B_r_CP) [centre at rest in the origin]", np.asarray(got[k], float) / sc_, rk,
+                          1e-11 * max(1.0, float(np.max(np.abs(rk)))), {"t": t, "scale": sc_}, kind="offset_scaling")
     if hasattr(body, "E_kin"):
         for un, u in U:
             acc.close("RigidBody.E_kin vs 1/2 u^T M u", np.array([body.E_kin(0.0, q, u)]), np.array([0.5 * u @ M @ u]), 1e-13 * max(1.0, float(u @ u)), {"u": un})
